@@ -537,7 +537,8 @@ func TestC08(t *testing.T) {
 		for step, to := range j.chain {
 			// the hops alternate between two output paths, as a user re-using scratch files does: from the
 			// third hop on the output file already exists and holds the (longer or shorter) result of an earlier hop
-			next := filepath.Join(dir, fmt.Sprintf("c%d-%s.tmp", ci, []string{"a", "b"}[step%2]))
+			// (the names carry extensions that say nothing about the content: a scratch file called x.json may hold CSV)
+			next := filepath.Join(dir, fmt.Sprintf("c%d-%s", ci, []string{"a.json", "b.csv"}[step%2]))
 			files = append(files, next)
 			R.Trans(1)
 			var err error
@@ -696,6 +697,34 @@ func TestC08(t *testing.T) {
 	// ---- input in none of the formats, arriving through a pipe on standard input -----------
 	// (a pipe has no size): the command must fail, not produce an empty output
 	pipeJunk := []string{"hello world\n", "{\"attack\":1}\n", "\x00\x01\x02", "GET http://x/\n", string(bytes.Repeat([]byte("z"), 5000)), "1,2,3\n", "{", "\n\n\n"}
+	// the same junk in files whose names end in a format's extension: a name is not a format
+	for ji, jk := range pipeJunk {
+		for _, ext := range []string{".json", ".csv", ".gob", ".bin"} {
+			fn := filepath.Join(dir, fmt.Sprintf("junk-%d%s", ji, ext))
+			os.WriteFile(fn, []byte(jk), 0o644)
+			out := fn + ".out"
+			var cerr error
+			func() {
+				defer func() {
+					if x := recover(); x != nil {
+						cerr = fmt.Errorf("panic: %v", x)
+					}
+				}()
+				cerr = encode([]string{fn}, "json", out)
+			}()
+			os.Remove(fn)
+			os.Remove(out)
+			R.Eval(1)
+			R.Part("encode_junk_file", ext, 1)
+			R.Distinct(fmt.Sprint("junk-file", ji, ext))
+			if vegeta.DecoderFor(strings.NewReader(jk)) != nil {
+				continue
+			}
+			if cerr == nil {
+				R.Violation("encode:junk-file-accepted-because-of-its-name", map[string]any{"input": ev.Trunc(fmt.Sprintf("%q", jk), 80), "name": "junk" + ext})
+			}
+		}
+	}
 	for ji, jk := range pipeJunk {
 		for _, to := range []string{"gob", "json", "csv"} {
 			pr, pw, err := os.Pipe()
